@@ -182,6 +182,7 @@ type c05Series struct {
 }
 
 type c05Store struct {
+	resetCalls func()
 	name       string
 	real       bool
 	lsets      []labels.Labels
@@ -206,6 +207,9 @@ type c05Relabel struct {
 }
 
 type c05Scenario struct {
+	// pre: queries sent through the same proxy and store clients BEFORE the main one (a store's
+	// advertised label sets and time range are state that must survive earlier pruning decisions)
+	pre        [][]c05Matcher
 	stores     []*c05Store
 	selector   labels.Labels
 	relabel    *c05Relabel
@@ -290,9 +294,10 @@ func (sc *c05Scenario) build() {
 			cl := &tsdbClient{StoreClient: storepb.ServerAsClient(ts, atomic.Bool{}), name: st.name, ext: ext, mint: st.mint, maxt: st.maxt}
 			st.client = cl
 			st.numCalls = func() int { cl.mu.Lock(); defer cl.mu.Unlock(); return cl.calls }
+			st.resetCalls = func() { cl.mu.Lock(); cl.calls = 0; cl.mu.Unlock() }
 			continue
 		}
-		fs := &fakeStore{name: st.name, lsets: st.lsets, mint: st.mint, maxt: st.maxt, withoutReplica: true, sharding: true}
+		fs := &fakeStore{name: st.name, lsets: append([]labels.Labels(nil), st.lsets...), mint: st.mint, maxt: st.maxt, withoutReplica: true, sharding: true}
 		fs.validate = func(req *storepb.SeriesRequest) error {
 			if _, err := storepb.MatchersToPromMatchers(req.Matchers...); err != nil {
 				return status.Error(codes.InvalidArgument, err.Error())
@@ -335,6 +340,7 @@ func (sc *c05Scenario) build() {
 		}
 		st.client = fs
 		st.numCalls = fs.numCalls
+		st.resetCalls = fs.reset
 	}
 }
 
@@ -413,6 +419,29 @@ func (sc *c05Scenario) expected() ([]map[string]map[string]*chunkSpec, map[strin
 // c05Check runs the scenario; returns a violation text or "", plus classes and the non-trivial flag.
 func c05Check(sc *c05Scenario) (string, bool, []string) {
 	sc.build()
+	main := sc.matchers
+	for i, q := range sc.pre {
+		sc.matchers = q
+		msg, _, _ := c05CheckOnce(sc)
+		sc.matchers = main
+		if msg != "" {
+			return fmt.Sprintf("earlier query %d %v: %s", i, q, msg), false, nil
+		}
+		for _, st := range sc.stores {
+			st.resetCalls()
+		}
+	}
+	msg, nt, classes := c05CheckOnce(sc)
+	if len(sc.pre) > 0 {
+		classes = append(classes, "after-earlier-queries")
+		if msg != "" {
+			msg = fmt.Sprintf("after %d earlier queries %v on the same stores: %s", len(sc.pre), sc.pre, msg)
+		}
+	}
+	return msg, nt, classes
+}
+
+func c05CheckOnce(sc *c05Scenario) (string, bool, []string) {
 	cfg := proxyCfg{strategy: sc.strategy, lazyBuf: 2, selector: sc.selector}
 	if sc.relabel != nil {
 		names := make(model.LabelNames, len(sc.relabel.source))
@@ -684,6 +713,13 @@ func c05GenScenario(rt *rapid.T, noEscape, noConjunction bool) (sc *c05Scenario,
 	}
 	if rapid.Bool().Draw(rt, "shuffleMatchers") {
 		sc.matchers[0], sc.matchers[len(sc.matchers)-1] = sc.matchers[len(sc.matchers)-1], sc.matchers[0]
+	}
+	for i, n := 0, rapid.SampledFrom([]int{0, 0, 1, 2, 3}).Draw(rt, "earlierQueries"); i < n; i++ {
+		q := []c05Matcher{genMatcher([]string{"a", "b"}, fmt.Sprintf("p%dm0", i))}
+		for j, k := 0, rapid.IntRange(0, 2).Draw(rt, "preExtra"); j < k; j++ {
+			q = append(q, genMatcher([]string{"e", "e", "f", "f", "g", "a"}, fmt.Sprintf("p%dm%d", i, j+1)))
+		}
+		sc.pre = append(sc.pre, q)
 	}
 
 	// query range from interesting instants
